@@ -172,6 +172,7 @@ def snapshot(chain, data_dir, light=False):
             d['key'] = t.name_for_persistence
             dp = t.data_path
             d['rel_path'] = os.path.relpath(str(dp), data_dir) if dp is not None else None
+            d['real_rel_path'] = os.path.relpath(os.path.realpath(str(dp)), os.path.realpath(str(data_dir))) if dp is not None else None
             d['has_data'] = bool(t.has_data)
         except Exception as e:
             d['key_error'] = f'{type(e).__name__}: {e}'
